@@ -154,7 +154,7 @@ theorem reconnect_processDelta_wild (gen : Gen) (v : Srv) (t : Ty)
     exact (mem_deltaWatched_first ["*"] init "" n hne).mpr (Or.inr (hreport n hn))
   obtain ⟨resp, hpd, hsync, _⟩ := wild_push_sync t wn retained (fullOut W) hset hnr rfl rfl rfl hcover
   have hsr : shouldRespondDelta v.st r = .out true (v.st.set t (some { names := wn, wildcard := (deltaWatched [] r).2.1 })) := by
-    simp [shouldRespondDelta, shouldRespondDeltaG, r, hfresh, hman, wn]
+    simp [shouldRespondDelta, shouldRespondDeltaG, deltaFirst, r, hfresh, hman, wn]
   have hnarrow : narrowedDelta t wn wn ([] : List String) = wn := by
     simp [narrowedDelta, hman]
   let s1 := v.st.set t (some { names := wn, wildcard := (deltaWatched [] r).2.1 })
